@@ -586,3 +586,128 @@ Example C03_number_and_base64_nonvacuous :
   base64_decode [x5a; x6d; x39; x76; x59; x6d; x45; x3d] = Some [x66; x6f; x6f; x62; x61] /\
   base64_decode [x5a; x6d; x39; x76; x59; x6d; x46; x3d] = None.
 Proof. vm_compute. repeat split; reflexivity. Qed.
+
+(* ==================================================================================================
+   Wave 6: the tuple-width guard [widths_ok] (tuples of at most 1024 members) is REMOVED from the round
+   trip (proofs in Abi/SerRoundTripWide.v; nothing above is changed, theorems 7-9, 14, 15 are instances
+   of the ones below).  The guard came from comparing strconv.Itoa (the input walk's default member key,
+   a div/mod loop) with strconv.FormatInt (the serializer's default member name, N.to_uint) by
+   computation on 0..1024.
+   ================================================================================================== *)
+From FFS Require Abi.ReprSpec Abi.SerRoundTripWide.
+
+(* 23. For EVERY index the input walk's default key is the serializer's default member name, and both
+       are the canonical decimal text of the index in the sense of the independent specification
+       ReprSpec.dec_text (most significant digit first, no leading zero, "0" for zero). *)
+Theorem C03_default_key_is_default_name :
+  forall i : nat,
+    InputModel.itoa i = NumericDefaultNameGenerator i /\
+    ReprSpec.dec_text (N.of_nat i) (InputModel.itoa i) /\ ReprSpec.dec_text (N.of_nat i) (NumericDefaultNameGenerator i).
+Proof. exact SerRoundTripWide.default_key_is_default_name. Qed.
+Print Assumptions C03_default_key_is_default_name.
+
+(* 24. Theorem 9 (C19's model of the text parser, no parser hypothesis) without the width guard. *)
+Theorem C03_json_roundtrip_wide :
+  forall (H : bytes -> bytes), (forall x, length (H x) = 32%nat) ->
+  forall (fs : bfloat -> jv) (s : serializer),
+    ts s = FormatAsFlatArrays \/ ts s = FormatAsObjects ->
+    bs s <> Base64ByteSerializer ->
+  forall (children : list tcomp) (v : val),
+    let c := root_of children in
+    ser_ok s c = true -> tc_wf c = true -> tc_no_zero_len c = true ->
+    well_typed (ty_of c) v = true -> weight_ok v ->
+    exists j, SerializeJSON H fs NumericDefaultNameGenerator s (cv_of c v) = Ok j /\
+              EncodeABIDataValues EthTypes.Model.BigIntegerFromString children (ext_of j) = Ok (enc (ty_of c) v).
+Proof. exact SerRoundTripWide.json_roundtrip_wide_c19. Qed.
+Print Assumptions C03_json_roundtrip_wide.
+
+(* 25. Theorem 14 (faithful json.Marshal entry point, UTF-8 guard) without the width guard. *)
+Theorem C03_json_roundtrip_wide_utf8 :
+  forall (H : bytes -> bytes), (forall x, length (H x) = 32%nat) ->
+  forall (fs : bfloat -> jv) (s : serializer),
+    ts s = FormatAsFlatArrays \/ ts s = FormatAsObjects ->
+    bs s <> Base64ByteSerializer ->
+  forall (children : list tcomp) (v : val),
+    let c := root_of children in
+    ser_ok s c = true -> tc_wf c = true -> tc_no_zero_len c = true ->
+    well_typed (ty_of c) v = true -> weight_ok v -> cval_utf8 (cv_of c v) = true ->
+    exists j, SerializeJSON_go H fs NumericDefaultNameGenerator s (cv_of c v) = Ok j /\
+              EncodeABIDataValues EthTypes.Model.BigIntegerFromString children (ext_of j) = Ok (enc (ty_of c) v).
+Proof. exact SerRoundTripWide.json_roundtrip_wide_go_c19. Qed.
+Print Assumptions C03_json_roundtrip_wide_utf8.
+
+(* 26. Theorem 15 (bytes -> decode -> serialize -> parse -> encode -> the same bytes) without the width
+       guard: guards on the type (ser_ok, tc_wf, no T[0], names valid UTF-8) and on the value only. *)
+Theorem C03_decode_serialize_parse_encode_wide :
+  forall (H : bytes -> bytes), (forall x, length (H x) = 32%nat) ->
+  forall (fs : bfloat -> jv) (s : serializer),
+    ts s = FormatAsFlatArrays \/ ts s = FormatAsObjects ->
+    bs s <> Base64ByteSerializer ->
+  forall (children : list tcomp) (v : val) (pre post : bytes),
+    let c := root_of children in
+    ser_ok s c = true -> tc_wf c = true -> tc_no_zero_len c = true ->
+    well_typed (ty_of c) v = true -> weight_ok v ->
+    names_utf8 c = true -> strings_utf8 (ty_of c) v = true ->
+    zlen (enc (ty_of c) v) < 2 ^ 32 -> counts_ok v = true ->
+    exists x j, DecodeABIData c (pre ++ enc (ty_of c) v ++ post) (zlen pre) = Ok x /\
+                SerializeJSON_go H fs NumericDefaultNameGenerator s x = Ok j /\
+                EncodeABIDataValues EthTypes.Model.BigIntegerFromString children (ext_of j) = Ok (enc (ty_of c) v).
+Proof. exact SerRoundTripWide.decode_serialize_parse_encode_wide_strings. Qed.
+Print Assumptions C03_decode_serialize_parse_encode_wide.
+
+(* 26'. The implication form (whatever the decoder returned and the serializer wrote). *)
+Theorem C03_decode_serialize_parse_encode_wide_any :
+  forall (H : bytes -> bytes), (forall x, length (H x) = 32%nat) ->
+  forall (fs : bfloat -> jv) (s : serializer),
+    ts s = FormatAsFlatArrays \/ ts s = FormatAsObjects ->
+    bs s <> Base64ByteSerializer ->
+  forall (children : list tcomp) (v : val) (pre post : bytes),
+    let c := root_of children in
+    ser_ok s c = true -> tc_wf c = true -> tc_no_zero_len c = true ->
+    well_typed (ty_of c) v = true -> weight_ok v -> cval_utf8 (cv_of c v) = true ->
+    zlen (enc (ty_of c) v) < 2 ^ 32 -> counts_ok v = true ->
+    forall x j, DecodeABIData c (pre ++ enc (ty_of c) v ++ post) (zlen pre) = Ok x ->
+                SerializeJSON_go H fs NumericDefaultNameGenerator s x = Ok j ->
+                EncodeABIDataValues EthTypes.Model.BigIntegerFromString children (ext_of j) = Ok (enc (ty_of c) v).
+Proof. exact SerRoundTripWide.decode_serialize_parse_encode_wide_any. Qed.
+Print Assumptions C03_decode_serialize_parse_encode_wide_any.
+
+(* 26''. With the concrete Keccak-256. *)
+Theorem C03_decode_serialize_parse_encode_wide_keccak :
+  forall (fs : bfloat -> jv) (s : serializer),
+    ts s = FormatAsFlatArrays \/ ts s = FormatAsObjects ->
+    bs s <> Base64ByteSerializer ->
+  forall (children : list tcomp) (v : val) (pre post : bytes),
+    let c := root_of children in
+    ser_ok s c = true -> tc_wf c = true -> tc_no_zero_len c = true ->
+    well_typed (ty_of c) v = true -> weight_ok v -> cval_utf8 (cv_of c v) = true ->
+    zlen (enc (ty_of c) v) < 2 ^ 32 -> counts_ok v = true ->
+    exists x j, DecodeABIData c (pre ++ enc (ty_of c) v ++ post) (zlen pre) = Ok x /\
+                SerializeJSON_go keccak256 fs NumericDefaultNameGenerator s x = Ok j /\
+                EncodeABIDataValues EthTypes.Model.BigIntegerFromString children (ext_of j) = Ok (enc (ty_of c) v).
+Proof. exact SerRoundTripWide.decode_serialize_parse_encode_wide_keccak. Qed.
+Print Assumptions C03_decode_serialize_parse_encode_wide_keccak.
+
+(* non-vacuity of 23-26: a parameter list of 1031 members (a string named "s", 1030 unnamed uint8 with the
+   default keys "1" .. "1030"), object mode with 0x-hex integers: [widths_ok] is FALSE (theorems 7-9, 14, 15
+   say nothing), every guard of theorems 24-26 holds, and the chain of theorem 26 with 4 bytes before and one
+   after gives back the bytes.  Evaluated once in Abi/SerRoundTripWide.v (11 s of vm_compute); restated here. *)
+Example C03_wide_nonvacuous :
+  let s1 := {| ts := FormatAsObjects; is_ := HexIntSerializer0xPrefix;
+               bs := HexByteSerializer0xPrefix; ad := Some ChecksumAddrSerializer |} in
+  let c := root_of SerRoundTripWide.wide_children in
+  let v := SerRoundTripWide.wide_value in
+  length SerRoundTripWide.wide_children = 1031%nat /\
+  widths_ok c = false /\ ser_ok s1 c = true /\ tc_wf c = true /\ tc_no_zero_len c = true /\
+  well_typed (ty_of c) v = true /\ names_utf8 c = true /\ strings_utf8 (ty_of c) v = true /\
+  (zlen (enc (ty_of c) v) <? 2 ^ 32) = true /\ counts_ok v = true /\
+  (match DecodeABIData c ([x01; x02; x03; x04] ++ enc (ty_of c) v ++ [xff]) 4 with
+   | Ok x => match SerializeJSON_go keccak256 (fun _ => JNull) NumericDefaultNameGenerator s1 x with
+             | Ok j => match EncodeABIDataValues EthTypes.Model.BigIntegerFromString SerRoundTripWide.wide_children (ext_of j) with
+                       | Ok b => bytes_eqb b (enc (ty_of c) v)
+                       | _ => false end
+             | _ => false end
+   | _ => false end) = true /\
+  InputModel.itoa (N.to_nat 1030) = [x31; x30; x33; x30] /\
+  effective_name (N.to_nat 1030) (TCElem EUInt [x38] 8 0 []) = [x31; x30; x33; x30].
+Proof. split; [vm_compute; reflexivity|]. exact SerRoundTripWide.wide_nonvacuous. Qed.
